@@ -355,8 +355,7 @@ mod c16 {
         assert!(line_is(&sv, &p, k, r), "C16/later-call-result");
         assert!(sv.line_count() == p.n, "C16/later-line-count");
         let cb_calls = unsafe { CB_CALLS };
-        // satisfiable only while get_line has a window in which it does not hold the
-        // lock (it has none after the F9 repair; the driver does not require it)
+        // other calls can always run before the outer call takes the lock (yield point 0)
         kani::cover!(nested >= 1, "a nested call ran between the outer call's blocks");
         kani::cover!(nested == 0, "no interference");
         kani::cover!(cb_calls >= 1, "yield points reached (hooks live)");
